@@ -209,10 +209,12 @@ impl St {
                                     }
                                     return Ok(());
                                 }
-                                Step::Last | Step::Fold | Step::RevCollect | Step::Skip(_) | Step::StepBy(_) | Step::Fork | Step::RFold | Step::RevLast => {
+                                Step::Last | Step::Fold | Step::RevCollect | Step::Skip(_) | Step::StepBy(_) | Step::Fork | Step::RFold | Step::RevLast | Step::Via(_) => {
                                     let (v, want): (Vec<Tracked>, Vec<u32>) = match st {
                                         Step::Fold => (d.fold_collect(), before[lo..hi].iter().map(|m| m.0).collect()),
                                         Step::RFold => (d.rfold_collect(), before[lo..hi].iter().rev().map(|m| m.0).collect()),
+                                        Step::Via(f) if f % 2 == 1 => (d.via_collect(*f), before[lo..hi].iter().rev().map(|m| m.0).collect()),
+                                        Step::Via(f) => (d.via_collect(*f), before[lo..hi].iter().map(|m| m.0).collect()),
                                         Step::RevLast => (d.rev_last().into_iter().collect(), before[lo..hi].iter().take(1).map(|m| m.0).collect()),
                                         Step::Last => (d.last_rest().into_iter().collect(), before[lo..hi].iter().rev().take(1).map(|m| m.0).collect()),
                                         Step::RevCollect => (d.rev_collect_rest(), before[lo..hi].iter().rev().map(|m| m.0).collect()),
@@ -1008,6 +1010,15 @@ impl St {
                         Ok(Flow::Done)
                     }
                     Called::Injected => {
+                        if self.opts.strict_ctor {
+                            // nothing was returned: every element of the array has to be dead by now, each destroyed once
+                            // (a second destruction is an event of the ledger)
+                            if let Some((id, _)) = ids.iter().find(|(id, _)| ledger::is_alive(*id)) {
+                                return Err(format!(
+                                    "conversion from an array of {m} elements: a destructor of a discarded element panicked and element id={id} was never destroyed (the rest is to be destroyed exactly once)"
+                                ));
+                            }
+                        }
                         self.fresh_buf();
                         Ok(Flow::Injected)
                     }
